@@ -543,7 +543,18 @@ void ParticleCreatorFile::createParticles() {
       }
       
       transformPos(p);
-      
+
+      /* A coordinate on the upper face of a periodic direction is the same point as the one on the lower face. A run keeps
+         such a particle (within the geometric tolerance of its cell) and the file format may round a coordinate up to the box
+         size, but findCell() only accepts the half-open box, so the particle used to be dropped without any message. */
+      {
+        const cuboid_t &box = M_BOUNDARY->boundingBox();
+        const bool_point_t &periodic = M_BOUNDARY->periodicityFront();
+        for (int dir = 0; dir < SPACE_DIMS; ++dir)
+          if (periodic[dir] && p.r[dir] >= box.corner2[dir] && p.r[dir] < box.corner2[dir] + g_geom_eps)
+            p.r[dir] -= box.corner2[dir] - box.corner1[dir];
+      }
+
       c = manager->findCell(p.r);
       if (c) {
 	
